@@ -128,14 +128,15 @@ def run_prop(prop, tier, ctx=None, quiet=False):
         if len(cov) < registry.MIN_CONSTEXPR_IFS:
             raise AnalysisBroken(f'only {len(cov)} if-constexpr sites seen in the PGM headers (expected >= {registry.MIN_CONSTEXPR_IFS})')
         obs = common.dedup(spec['rules'](ctx))
-        # instance counts against the confirmed minimum
+        # instance counts against the confirmed minimum (a violated obligation is reported first: it is not a pass)
         counts = {}
         for o in obs:
             counts[o.rule] = counts.get(o.rule, 0) + 1
-        for rule, mn in registry.expect_for(prop).items():
-            if counts.get(rule, 0) < mn:
-                raise AnalysisBroken(f'rule {rule} produced {counts.get(rule, 0)} obligations, fewer than the {mn} confirmed by hand '
-                                     f'(a rule that matches nothing never passes silently)')
+        if not any(o.status == VIOLATED for o in obs):
+            for rule, mn in registry.expect_for(prop).items():
+                if counts.get(rule, 0) < mn:
+                    raise AnalysisBroken(f'rule {rule} produced {counts.get(rule, 0)} obligations, fewer than the {mn} confirmed by hand '
+                                         f'(a rule that matches nothing never passes silently)')
         extra = {'constexpr_if_sites': len(cov), 'constexpr_if_arms_covered': sum(len(v) for v in cov.values())}
         # positive self-tests: every expected-zero rule must fire on its tiny example
         st = []
